@@ -17,9 +17,16 @@ def gen(ctx):
                         # reconnect: the new control session is the one that must be offered afterwards
                         ops += ["disc:1@" + R(b"221 bye"), connect(), get(mode, rfc), put(mode, rfc)]
                         yield line(c, ops)
+                        # every way a control session can end, then a new one: after QUIT, after a non-graceful disconnect, after
+                        # a 421 (the library closes by itself) with and without a disconnect, after logout + login (REIN drops
+                        # the TLS layer), by connecting again while connected - the *current* session is the one to offer
+                        bye = "disc:1@" + R(b"221 bye")
+                        for ending in ([bye], ["disc:0"], ["noop@" + R(b"421 closing") + ",X"], ["noop@" + R(b"421 closing") + ",X", "disc:0"],
+                                       ["noop@X", "disc:0"], []):
+                            yield line(c, [connect(), get(mode, rfc)] + ending + [connect(), get(mode, rfc), put(mode, rfc), lst(mode, rfc)] + ending + [connect(), get(mode, rfc)])
         # verification settings are those of the control connection: an untrusted certificate fails on both or on neither
         yield line(cfg_str(ver=ver, verify="none", prop="C18"), [connect(bad_cert=True), get("p", 1), put("p", 1)])
-    ctx["scopes"].append("TLS 1.2/1.3 x resumption on/off x four methods x server requires reuse on/off, 2-6 (thorough 5-20) consecutive transfers, then reconnect and transfer again")
+    ctx["scopes"].append("TLS 1.2/1.3 x resumption on/off x four methods x server requires reuse on/off, 2-6 (thorough 5-20) consecutive transfers, then reconnect and transfer again; sessions ended by QUIT / non-graceful disconnect / 421 with and without disconnect / server drop / connect while connected, each followed by transfers on the new session")
 
 PROP = {
     "id": "C18",
